@@ -201,6 +201,7 @@ template<multi::dimensionality_type D> void q_iter(VS<D> const& s) {
 			}
 		}
 		std::fprintf(fans, "iter %ld %ld : %s\n", size, viol, join(ds).c_str());
+		if(viol != 0) std::fprintf(fans, "LAW-VIOLATION begin()/end() iterator laws: %ld checks failed\n", viol);
 	}
 }
 
@@ -238,6 +239,9 @@ template<multi::dimensionality_type D> void q_elems(VS<D> const& s) {
 			chk(it - b == p); chk(e - it == n - p);
 			if(p < n) { auto t = it; ++t; --t; chk(t == it); chk(addr_of(&*t) == want[static_cast<std::size_t>(p)]); }
 			if(p > 0) { auto t = it; --t; ++t; chk(t == it); if(p < n) { chk(addr_of(&*t) == want[static_cast<std::size_t>(p)]); } }
+			// mixing ++/-- with arithmetic: (++it) - 1, (++it)[-1], (--it) + 1 must come back to the same element
+			if(p < n) { auto w = want[static_cast<std::size_t>(p)]; auto t = it; ++t; auto u = t - 1; chk(addr_of(&*u) == w); chk(addr_of(&t[-1]) == w); auto d = t; --d; chk(addr_of(&*d) == w); chk(d == it); }
+			if(p > 0 && p < n) { auto w = want[static_cast<std::size_t>(p)]; auto t = it; --t; auto u = t + 1; chk(addr_of(&*u) == w); auto t2 = t; ++t2; chk(addr_of(&*t2) == w); chk(t2 == it); }
 			chk(p == n ? (it == e) : !(it == e));
 			for(long q = 0; q <= n; ++q) {
 				long k = q - p;
@@ -252,6 +256,7 @@ template<multi::dimensionality_type D> void q_elems(VS<D> const& s) {
 			}
 		}
 		std::fprintf(fans, "elems %ld %ld : %s\n", n, viol, join(byinc).c_str());
+		if(viol != 0) std::fprintf(fans, "LAW-VIOLATION elements() iterator laws: %ld checks failed\n", viol);
 	}
 }
 
@@ -385,13 +390,20 @@ template<multi::dimensionality_type D> bool gen_op(VS<D> const& s, Rng& rng, boo
 	}
 }
 
+// which query families a run emits: C01 = shape/addrs/paths/bcast, C02 = iter/elems (+ shape), zero|rebased = all
+static bool g_q_shape = true, g_q_iter = true;
+
 static void emit_queries(AnyView const& av, int reg, Rng& rng, bool all) {
 	auto q = [&](char const* what) { std::fprintf(fprog, "q %s %d\n", what, reg); };
 	if(all || rng.coin(60)) { q("shape"); std::visit([](auto const& s) { q_shape(s); }, av); }
-	if(all || rng.coin(60)) { q("addrs"); std::visit([](auto const& s) { q_addrs(s); }, av); }
-	if(all || rng.coin(40)) { q("paths"); std::visit([](auto const& s) { q_paths(s); }, av); }
-	if(all || rng.coin(40)) { q("iter"); std::visit([](auto const& s) { q_iter(s); }, av); }
-	if(all || rng.coin(40)) { q("elems"); std::visit([](auto const& s) { q_elems(s); }, av); }
+	if(g_q_shape) {
+		if(all || rng.coin(60)) { q("addrs"); std::visit([](auto const& s) { q_addrs(s); }, av); }
+		if(all || rng.coin(40)) { q("paths"); std::visit([](auto const& s) { q_paths(s); }, av); }
+	}
+	if(g_q_iter) {
+		if(all || rng.coin(g_q_shape ? 40 : 70)) { q("iter"); std::visit([](auto const& s) { q_iter(s); }, av); }
+		if(all || rng.coin(g_q_shape ? 40 : 70)) { q("elems"); std::visit([](auto const& s) { q_elems(s); }, av); }
+	}
 }
 
 template<multi::dimensionality_type D> AnyView make_root(std::vector<Ex> const& ex, Ptr base) {
@@ -449,7 +461,7 @@ static void run_generated(std::uint64_t seed, long nprog, bool rebased) {
 		}
 		emit_queries(cur, src, rng, rng.coin(50));
 		// broadcast: the broadcasted view designates the source at every index of the new leading dimension
-		if(rng.coin(20)) {
+		if(g_q_shape && rng.coin(20)) {
 			long i = rng.range(-5, 5);
 			std::fprintf(fprog, "q bcast %d %ld %ld\n", src, rng.range(0, 9), i);
 			bool same = std::visit([&](auto const& s) {
@@ -513,7 +525,10 @@ int main(int argc, char** argv) {
 	if(argc < 6) { std::fprintf(stderr, "usage: views <seed> <nprograms> <zero|rebased> <prog-out> <answers-out> [--replay file]\n"); return 2; }
 	std::uint64_t seed = std::strtoull(argv[1], nullptr, 10);
 	long nprog = std::strtol(argv[2], nullptr, 10);
-	bool rebased = std::string(argv[3]) == "rebased";
+	std::string mode = argv[3];
+	bool rebased = mode == "rebased" || mode == "rebased-c02";
+	if(mode == "c01") { g_q_iter = false; }
+	if(mode == "c02" || mode == "rebased-c02") { g_q_shape = false; }
 	fprog = std::fopen(argv[4], "w"); fans = std::fopen(argv[5], "w");
 	if(!fprog || !fans) { std::perror("fopen"); return 2; }
 	g_storage.assign(4096, 0);
